@@ -27,10 +27,20 @@ def find_markers(ff: FuncFlow):
     neg = False
     if isinstance(test, ast.UnaryOp) and isinstance(test.op, ast.Not):
       neg, test = True, test.operand
+    extra = []
+    if isinstance(test, ast.BoolOp) and isinstance(test.op, ast.And):
+      ex = [v for v in test.values if isinstance(v, ast.Call) and atomic.ext_path(ff, v) in atomic.EXISTS and v.args]
+      if len(ex) == 1:
+        extra = [v for v in test.values if v is not ex[0]]
+        test = ex[0]
     if isinstance(test, ast.Call) and atomic.ext_path(ff, test) in atomic.EXISTS and test.args:
       reuse, produce = (st.orelse, st.body) if neg else (st.body, st.orelse)
       out.append((st, test.args[0], reuse, produce))
+      EXTRA_CONDITIONS[id(st)] = extra
   return out
+
+
+EXTRA_CONDITIONS = {}
 
 
 def _within(stmts: List[ast.stmt], node: ast.AST, ff: FuncFlow) -> bool:
@@ -70,6 +80,11 @@ def run(check: Check):
     renames = aa.renames(ff)
     for st, P, reuse, produce in markers:
       n_markers += 1
+      extra = EXTRA_CONDITIONS.get(id(st), [])
+      check.ob('R-ATOMIC.reuse', fi, f'reuse iff exists({txt(P)})', not extra,
+               'a file under its final name is complete by construction and is reused as it is; an additional condition' +
+               (f' ({txt(extra[0])})' if extra else '') + ' makes a complete file (e.g. an empty payload) be produced again on every call',
+               node=st.test)
       pbase, psuf = split_suffix(ff, P)
       mine = []
       for w in writers:
@@ -246,8 +261,45 @@ def _block_count(check: Check):
     check.ob('R-CEILDIV', fi, txt(cnt), ok,
              f'block count must be ceil(length / {txt(blk)}) so the final partial block is fetched',
              node=it)
+    _response_checked(check, fi, ff, n, cnt)
     return
   check.error('anchor-shape: transfer loop not found in maybe_download')
+
+
+def _response_checked(check: Check, fi, ff: FuncFlow, loop_node, cnt: ast.AST):
+  """What is written is the payload of a successful response of known length: the status is checked before the first byte is
+  written, and the length is read from the header in a way that fails when the header is missing (no default)."""
+  gets = [(n, c) for n, c in ff.calls() if (ff.ext(c.func) or '').endswith(('requests.get', 'requests.request', 'urlopen')) or txt(c.func) in (
+      'requests.get',)]
+  if not gets:
+    check.undecided('maybe_download: no requests.get call recognised; status / length handling not judged')
+    return
+  gn, gc = gets[0]
+  resp = None
+  st = ff.module.enclosing_stmt(gc)
+  if isinstance(st, ast.Assign) and isinstance(st.targets[0], ast.Name):
+    resp = st.targets[0].id
+  status_nodes = {n.id for n, c in ff.calls() if isinstance(c.func, ast.Attribute) and c.func.attr == 'raise_for_status' and resp and txt(
+      c.func.value) == resp}
+  # explicit status tests count as well: if r.status_code != 200: raise
+  for n in ff.cfg.nodes:
+    if n.kind == 'if' and resp and any(isinstance(x, ast.Attribute) and x.attr in ('status_code', 'ok') and txt(x.value) == resp for x in ast.walk(
+        n.ast.test)) and any(isinstance(s_, ast.Raise) for s_ in n.ast.body):
+      status_nodes.add(n.id)
+  write_nodes = [n for n, c in ff.calls() if isinstance(c.func, ast.Attribute) and c.func.attr == 'write']
+  reach = ff.cfg.reachable_from([gn], avoid=status_nodes, labels_excluded=('exc', 'raise', 'reraise'))
+  unchecked = [w for w in write_nodes if w.id in reach]
+  check.ob('R-ATOMIC.status', fi, f'{resp}.raise_for_status() before the first write', bool(status_nodes) and not unchecked,
+           'the HTTP status is checked on every path from the request to the first write: otherwise the body of a 404 / 500 answer is '
+           'published under the final cache name and reused forever', node=gc)
+  # length: header subscript (KeyError when absent) - not .get(..., default)
+  defaults = []
+  for x in ff.deep_walk(cnt):
+    if isinstance(x, ast.Call) and isinstance(x.func, ast.Attribute) and x.func.attr == 'get' and 'headers' in txt(x.func.value) and len(x.args) >= 2:
+      defaults.append(x)
+  check.ob('R-ATOMIC.length', fi, 'content length from the response header, no default', not defaults,
+           'a missing Content-Length must stop the download: with a default length (e.g. 0) nothing is read and an empty file is published '
+           'as complete' + (f' ({txt(defaults[0])})' if defaults else ''), node=defaults[0] if defaults else None)
 
 
 def _is_ceildiv(ff: FuncFlow, e: ast.AST, blk: ast.AST) -> bool:
